@@ -36,7 +36,7 @@ LEVEL_NOTE = ("Trusted: the kernel's lock models (threading.RLock and multiproce
               "Lock-order inversions between the tty lock and the cell-size / memo locks are "
               "outside the statement and kept out of the workloads (DESIGN.md 4.C14).")
 TIERS = {
-    "quick": {"runs": 2500},
+    "quick": {"runs": 3500},
     "thorough": {"runs": 200000, "wall_cap": 1500},
 }
 RULE = ("world = seeded program tree (<= 3 processes x <= 4 tasks x <= 8 steps) x start method "
@@ -126,7 +126,7 @@ def gen_program(ch, depth, budget, mode="getters"):
         elif depth == 0:
             kinds.append((3, "screen"))
         if depth < 2 and budget[0] > 0:
-            kinds.append((3, "start"))
+            kinds.append((4, "start"))
         kind = ch.weighted("step", kinds)
         if kind == "probe":
             if ch.bool("raises", 0.15):
@@ -171,7 +171,7 @@ def run(ch, ctx, fault=None):
     k.step_cap = 60000
     dmax = ch.pick("dmax", (0, 2_000_000, 20_000_000))
     tty.delay_fn = (lambda kind: ch.int("delay", 0, dmax)) if dmax else (lambda kind: 0)
-    budget = [ch.int("procs", 0, 2)]
+    budget = [ch.int("procs", 0, 3)]
     n_root = ch.int("root_threads", 1, 4)
     mode = ch.pick("mode", ("getters", "getters", "screen", "screen", "late", "noquery",
                             "notty"))
